@@ -84,7 +84,9 @@ def badkey():
 
 
 def msg32():
-    return st.binary(min_size=32, max_size=32).map(bytes.hex)
+    """32-byte digests: uniform, and the values around the group order and the field prime, where a reduction has its edges"""
+    edge = [0, 1, N - 1, N, N + 1, P - 1, P, P + 1, 2**256 - 1, 2**255, N // 2, N // 2 + 1]
+    return st.one_of(st.binary(min_size=32, max_size=32), st.sampled_from(edge).map(lambda v: v.to_bytes(32, "big"))).map(bytes.hex)
 
 
 def sec_bytes():
@@ -463,5 +465,5 @@ def check_op(case):
 
 
 SUBCHECKS = [
-    SubCheck("op_table", check_op, "each dual-path operation with valid and hostile arguments observed under bindings on / off / on again; non-trivial: the call got past argument typing on both arms (a value or a non-type error)", op_case, quick=6000, thorough=100000, max_buckets=8),
+    SubCheck("op_table", check_op, "each dual-path operation with valid and hostile arguments observed under bindings on / off / on again; non-trivial: the call got past argument typing on both arms (a value or a non-type error)", op_case, quick=16000, thorough=200000, max_buckets=8),
 ]
